@@ -106,6 +106,12 @@ def templates():
                                          "c = [q(6), q(7)]\ne = c\nc[(c := [q(8), q(9)])[0] - 8] += q(1)\nL('ce', c, e)\n")
     T['aug_attr_operand_rebinds_object'] = ("class O_:\n    v = 0\no1 = O_()\no2 = O_()\nx = o1\ndef sw2():\n    global x\n    x = o2\n    return q(5)\nx.v += sw2()\nL('o', o1.v, o2.v)\n")
     T['assign_sub_value_rebinds_object'] = "g = [0, 0]\nh = [9, 9]\ndef sw3():\n    global g\n    g = h\n    return q(1)\ng[q(0)] = sw3()\nL('gh', g, h)\n"
+    # keyword arguments and ** mappings in every order (written order = evaluation order)
+    T['call_kwargs_order'] = "L(dict(**(L('m', 1) or {}), k=q(2), **(L('m', 3) or {'z': 1}), j=q(4)))\nL(dict(a=q(5), **(L('m', 6) or {})), max(q(7), q(8), *[q(9)], key=(L('m', 10) or abs)))\n"
+    # if / else whose branch is a bare return / continue that needs no flag (the last statement of its body)
+    T['if_else_bare_return'] = "def f(c):\n    L('f', c)\n    if q(c):\n        return\n    else:\n        L('else', c)\nf(1)\nf(0)\n"
+    T['if_else_bare_continue'] = "for c in [q(1), q(0)]:\n    if c:\n        continue\n    else:\n        L('else', c)\n"
+    T['if_else_pass_and_falsy'] = "if q(1):\n    pass\nelse:\n    L('else')\nif q(1):\n    q(0)\nelse:\n    L('else2')\nif q(0):\n    pass\nelif q(1):\n    q(0)\nelse:\n    L('else3')\n"
     # expression statements that are nothing but a literal with evaluated parts
     T['bare_fstring'] = "f'{q(1)!r:>{q(2)}}{q(3)}'\nf'a{q(4)}' f'{q(5)}b'\n"
     T['bare_fstring_in_function'] = "def f():\n    f'{q(1)}{q(2)!s}'\n    return q(3)\nf()\n"
